@@ -1,6 +1,7 @@
 import Enc.Model.Thrift
 import Enc.Lemmas.Base
 import Enc.Lemmas.ThriftSkip
+import Enc.Lemmas.ThriftTotal
 /-!
 # C08 — thrift decoding is total, bounded and skips unknown fields
 Property theorems only.
@@ -63,5 +64,36 @@ theorem undeclared_field_has_no_effect (p : Proto) (strict : Bool) (B : Nat) (f 
 struct with bool, list-of-struct, enum, map-of-pointers and set in both protocols) -/
 example : Lemmas.ThriftSkip.WF (.slice (.int .i32)) (.list (.cons (.int 5) (.cons (.int (-7)) .nil))) = true := by
   decide +kernel
+
+/-! ## totality, truncation, trailing bytes (proofs in Enc/Lemmas/ThriftTotal*.lean; 7 files) -/
+
+open Lemmas.ThriftTotal in
+/-- **MAIN (totality).** For every protocol setting, every target type without an unsupported Go kind (unsigned
+integers other than []byte, arrays, empty interfaces — Go panics on those while building the decoder) and EVERY byte
+string, `Unmarshal` returns a value or an error. The skippers never panic on any wire type code at all. -/
+theorem unmarshal_total (p : Proto) (strict : Bool) (ty : Ty) (b : Bytes) (e : String) (h : Supported ty = true) :
+    unmarshal p strict ty b ≠ .panic e :=
+  Lemmas.ThriftTotal.unmarshal_total p strict ty b e h
+
+open Lemmas.ThriftTotal in
+/-- no input — absurd element counts included — drives the decoder into unbounded descent -/
+theorem unmarshal_ne_fuel (p : Proto) (strict : Bool) (ty : Ty) (b : Bytes) : unmarshal p strict ty b ≠ .err "fuel" :=
+  Lemmas.ThriftTotal.unmarshal_ne_fuel p strict ty b
+
+open Lemmas.ThriftTotal in
+/-- **MAIN (truncation).** Whatever input `Unmarshal` accepts — not only encoder output — every proper prefix of it is
+rejected with plain EOF when nothing at all is left and with an unexpected-EOF class error otherwise: never a value,
+never another error class (a cut at a field boundary or one that drops a required field included). -/
+theorem unmarshal_trunc (p : Proto) (strict : Bool) (ty : Ty) (b : Bytes) (v : Val)
+    (h : unmarshal p strict ty b = .ok v) (k : Nat) (hk : k < b.length) :
+    unmarshal p strict ty (b.take k) = .err (if k = 0 then "eof" else "unexpectedEof") :=
+  Lemmas.ThriftTotal.unmarshal_trunc_strict p strict ty b v h k hk
+
+open Lemmas.ThriftTotal in
+/-- trailing bytes after a complete value are reported -/
+theorem unmarshal_append_trailing (p : Proto) (strict : Bool) (ty : Ty) (b extra : Bytes) (v : Val)
+    (h : unmarshal p strict ty b = .ok v) (hx : extra ≠ []) :
+    unmarshal p strict ty (b ++ extra) = .err "trailing" :=
+  Lemmas.ThriftTotal.unmarshal_append_trailing p strict ty b extra v h hx
 
 end Enc.Props.C08
